@@ -311,6 +311,7 @@ fn check(c: &Case, obs: &mut Obs) -> Verdict {
     obs.class_if(broken > 0, "unparsable-function-map(for one source)");
     obs.class_if(broken > 0 && !good.is_empty(), "unparsable-next-to-well-formed");
     obs.class_if(out_of_range, "name-index-out-of-range");
+    obs.class_if(good.iter().any(|f| f.entries.iter().any(|e| e.2 >= 1 << 31)), "running-name-index-below-zero");
     obs.class_if(c.meta.iter().any(|m| matches!(m, Meta::Null)), "metadata:null");
     obs.class_if(c.meta.iter().any(|m| matches!(m, Meta::Empty)), "metadata:[]");
     obs.class_if(c.meta.iter().any(|m| matches!(m, Meta::Maps(_, e) if !e.is_empty())), "metadata:extra-entries");
@@ -333,7 +334,7 @@ fn spec(allow_faults: bool) -> BoxedStrategy<FnMapSpec> {
                 Just(vec![]).boxed()
             } else {
                 prop_oneof![
-                    12 => vec((1u32..7, 0u32..30, 0..n), 0..9),
+                    12 => vec((1u32..7, 0u32..30, prop_oneof![14 => (0..n).boxed(), 1 => (0u32..2).prop_map(|k| u32::MAX - k).boxed()]), 0..9),
                     // large function maps (hundreds of entries, around the powers of two)
                     1 => proptest::sample::select(vec![60usize, 127, 128, 129, 255, 256, 257, 258, 300, 513])
                         .prop_flat_map(move |k| vec((1u32..40, 0u32..30, 0..n), k..k + 40)),
